@@ -6,21 +6,23 @@ sys.path.insert(0, "/verif")
 import tools_seeded as T
 
 def main():
+    SD = sys.argv[1] if len(sys.argv) > 1 else "/tmp/seed2"
+    OFF = int(sys.argv[2]) if len(sys.argv) > 2 else 2
     nslots = 6
     T.sh("mkdir -p /tmp/wtv")
     for s in range(nslots):
         if not os.path.isdir("/tmp/wtv/%d" % s):
             T.sh("git -C /repo worktree add -q --detach /tmp/wtv/%d HEAD" % s)
     jobs = [("C%02d" % i, n) for i in range(1, 20) for n in (1, 2)
-            if os.path.exists("/tmp/seed2/C%02d/patch%d.diff" % (i, n)) and
-            not os.path.exists("/verif/seeded/C%02d-%d/meta.json" % (i, n + 2))]
+            if os.path.exists(SD + "/C%02d/patch%d.diff" % (i, n)) and
+            not os.path.exists("/verif/seeded/C%02d-%d/meta.json" % (i, n + OFF))]
     q = queue.Queue()
     for s in range(nslots):
         q.put(s)
     def run(job):
         s = q.get()
         try:
-            return job, T.verify(job[0], job[1], s, "/tmp/seed2")
+            return job, T.verify(job[0], job[1], s, SD)
         finally:
             q.put(s)
     ver = json.load(open("/verif/seeded/verification.json"))
@@ -28,22 +30,22 @@ def main():
         for (pid, n), r in ex.map(run, jobs):
             if not r:
                 continue
-            print(pid, n + 2, "valid" if r.get("valid") else "INVALID",
+            print(pid, n + OFF, "valid" if r.get("valid") else "INVALID",
                   {k: r.get(k) for k in ("applies", "tests_rc", "demo_clean_rc", "demo_patched_rc")}, flush=True)
-            r["n"] = n + 2
-            ver = [v for v in ver if (v["property"], v["n"]) != (pid, n + 2)] + [r]
+            r["n"] = n + OFF
+            ver = [v for v in ver if (v["property"], v["n"]) != (pid, n + OFF)] + [r]
             if r.get("valid"):
-                d = "/verif/seeded/%s-%d" % (pid, n + 2)
+                d = "/verif/seeded/%s-%d" % (pid, n + OFF)
                 os.makedirs(d, exist_ok=True)
-                shutil.copy("/tmp/seed2/%s/patch%d.diff" % (pid, n), d + "/patch.diff")
-                shutil.copy("/tmp/seed2/%s/demo%d.py" % (pid, n), d + "/demo.py")
-                notes = "/tmp/seed2/%s/notes%d.md" % (pid, n)
+                shutil.copy(SD + "/%s/patch%d.diff" % (pid, n), d + "/patch.diff")
+                shutil.copy(SD + "/%s/demo%d.py" % (pid, n), d + "/demo.py")
+                notes = SD + "/%s/notes%d.md" % (pid, n)
                 needs = "see notes.md"
                 if os.path.exists(notes):
                     shutil.copy(notes, d + "/notes.md")
-                meta = {"id": "%s-%d" % (pid, n + 2), "breaks_property": pid, "round": 2,
+                meta = {"id": "%s-%d" % (pid, n + OFF), "breaks_property": pid, "round": 1 + OFF // 2,
                         "needs_to_manifest": needs,
-                        "origin": "round 2: independent sub-agent given the property text, a scratch worktree and a one-line list of the round-1 changes to avoid",
+                        "origin": "later round: independent sub-agent given the property text, a scratch worktree and a one-line list of the round-1 changes to avoid",
                         "verified": {"how": "tools_round2.py in a scratch git worktree of /repo",
                                      "patch_applies": r["applies"], "test_suite_with_patch": r["tests_tail"],
                                      "demo_on_clean_tree_exit": r["demo_clean_rc"],
